@@ -124,6 +124,23 @@ def build(depth, stride, offset):
             out.append(("prec-sum", Sum[(A, B)](f)))
             out.append(("prec-sum*", Sum[(C,)](f) * P(B)))
             out.append(("prec-sum/", P(B) / Sum[(C,)](f)))
+    # every variable name the parser documents (A-Z except P and Q, with an index 0-9, with an underscored index, and
+    # the population names): one plain term, one conditional term, one population-tagged term per name
+    import string
+
+    from y0.dsl import PP, Variable
+
+    for letter in [c for c in string.ascii_uppercase if c not in "PQ"] + ["π"]:
+        for name in [letter] + [f"{letter}{i}" for i in range(10)] + [f"{letter}_{i}" for i in range(10)]:
+            if name == "π":
+                continue
+            v = Variable(name)
+            if letter == "π":
+                out.append(("names", PP[v](A | B)))
+            else:
+                out.append(("names", P(v)))
+                out.append(("names", P(A | v) if name != "A" else P(B | v)))
+                out.append(("names", Sum[(v,)](P(v, A)) if name != "A" else Sum[(v,)](P(v, B))))
     import json
 
     seen = {}
@@ -230,7 +247,7 @@ def run() -> int:
         "normalising constructors reached through the parser (Distribution.safe, Product.safe, Sum.safe, __truediv__)",
     ]
     rep.bounds = {
-        "expressions": "built through public operators only: 594 single terms over systematically decorated variables (value mark x 0-2 subscripts of mixed polarity, on children and conditions, plain / population-tagged) alone, times P(B), and under P(B)/.; 30 leaves (joint/conditional, value marks, L2 and L3 subscripts, population tags incl. the target tag, Q-factors, One, Zero); all a*b, a/b, Sum[R](a); depth 3 = (depth-2) op leaf in both positions and sums (quick: every 7th, thorough: every 2nd); an operator-precedence family in both tiers (every grouping of three small operands by * and /, alone, as the body of a Sum, and next to a Sum); structural duplicates removed",
+        "expressions": "built through public operators only: 594 single terms over systematically decorated variables (value mark x 0-2 subscripts of mixed polarity, on children and conditions, plain / population-tagged) alone, times P(B), and under P(B)/.; 30 leaves (joint/conditional, value marks, L2 and L3 subscripts, population tags incl. the target tag, Q-factors, One, Zero); all a*b, a/b, Sum[R](a); depth 3 = (depth-2) op leaf in both positions and sums (quick: every 7th, thorough: every 2nd); an operator-precedence family in both tiers (every grouping of three small operands by * and /, alone, as the body of a Sum, and next to a Sum); every variable name the parser documents (A-Z without P and Q, plain / indexed / underscore-indexed; population names with index) in a plain, a conditional, a summed and a population-tagged term; structural duplicates removed",
         "distributions": "free positive joints per (population, intervention assignment), binary variables, Q-factors uninterpreted; cross-world terms cannot be evaluated in this world: for them only object equality after the round trip is checked (a shape-changing round trip of a cross-world term is reported as inconclusive)",
         "PYTHONHASHSEED": hashseed(),
     }
